@@ -28,11 +28,31 @@ type c06Case struct {
 	Timing    string `json:"timing"`     // idle | after-msg | read-pending | read-after | partial-fin | partial-frag1 | partial-frag2 | unread-queued
 	Calls     string `json:"calls,omitempty"`
 	Part      int    `json:"part,omitempty"` // partial-*: how many bytes of the 200-byte message the application reads before Close
+	MB        bool   `json:"multibyte,omitempty"` // the reason consists of two-byte characters (ReasonLen counts bytes)
 }
 
-var c06PartialTimings = []string{"partial-fin", "partial-frag1", "partial-frag2", "unread-queued"}
+// c06MultiByte switches c06Reason to multi-byte reasons for the current case (cases run one at a time).
+var c06MultiByte bool
+
+var c06PartialTimings = []string{"partial-fin", "partial-frag1", "partial-frag2", "unread-queued", "writer-open-compressed"}
+
+// c06ReasonMB: a reason of exactly n BYTES made of two-byte characters (and one ASCII
+// letter when n is odd): the 123-byte limit of RFC 6455 counts bytes, not characters.
+func c06ReasonMB(n int, code int) string {
+	var sb strings.Builder
+	if n%2 == 1 {
+		sb.WriteByte(byte('a' + code%26))
+	}
+	for sb.Len() < n {
+		sb.WriteString([]string{"é", "ü", "ñ", "ø"}[(sb.Len()/2+code)%4])
+	}
+	return sb.String()
+}
 
 func c06Reason(n int, code int) string {
+	if c06MultiByte {
+		return c06ReasonMB(n, code)
+	}
 	var sb strings.Builder
 	for i := 0; i < n; i++ {
 		sb.WriteByte(byte('a' + (i+code)%26))
@@ -118,7 +138,11 @@ func postCloseChecks(e *env, c *websocket.Conn, alreadyReturned bool) string {
 func runC06Local(t fataler, c c06Case) string {
 	e := newEnv(t)
 	defer e.Teardown()
-	lc, err := e.open(connSpec{Client: c.Client})
+	spec := connSpec{Client: c.Client}
+	if c.Timing == "writer-open-compressed" {
+		spec.Mode, spec.Ext = websocket.CompressionContextTakeover, "permessage-deflate"
+	}
+	lc, err := e.open(spec)
 	if err != nil {
 		return "handshake: " + err.Error()
 	}
@@ -143,6 +167,23 @@ func runC06Local(t fataler, c c06Case) string {
 	case "read-pending":
 		readDone = e.Call(func() { _, _, readErr = conn.Read(context.Background()) })
 		synctest.Wait()
+	case "writer-open-compressed":
+		// a streamed compressed message is open, and exactly its first frame is out, when Close is called
+		var werr error
+		done := e.Call(func() {
+			w, err := conn.Writer(context.Background(), websocket.MessageBinary)
+			if err != nil {
+				werr = err
+				return
+			}
+			_, werr = w.Write(expand(ckHeadRandom, uint64(c.Part)+1, 65536))
+		})
+		if !within(done, 10*time.Second) || werr != nil {
+			return fmt.Sprintf("pre-close streamed write failed: %v", werr)
+		}
+		synctest.Wait()
+		fs, _ := p.snapshot()
+		preFrames = len(fs)
 	case "partial-fin", "partial-frag1", "partial-frag2", "unread-queued":
 		// the application has read only a part of a message when it calls Close:
 		// what is left of it, and everything queued behind it, is to be discarded
@@ -200,6 +241,9 @@ func runC06Local(t fataler, c c06Case) string {
 			first = &frames[i]
 			break
 		}
+	}
+	if first != nil && (first.Rsv1 || first.Rsv2 || first.Rsv3 || !first.Fin) {
+		return fmt.Sprintf("the Close frame carries RSV bits or is not final (rsv1=%v rsv2=%v rsv3=%v fin=%v): the peer must fail the connection instead of echoing", first.Rsv1, first.Rsv2, first.Rsv3, first.Fin)
 	}
 	sendable := ref.Sendable(c.Code)
 	switch {
@@ -385,7 +429,7 @@ func runC06Recv(t fataler, c c06Case) string {
 
 func TestC06(t *testing.T) {
 	rec := evid.For("C06")
-	rec.Rule = "local Close over every wire code 0..65535 plus out-of-range values x reason-length class x role x timing (idle, after a write, with a Read pending, after the application read only k of the 200 bytes of an unfragmented or fragmented message, with further unread messages queued); received Close frame over every code x reason class x role x timing (scripted raw peer, virtual time); rapid-drawn mixed cases incl. library<->library and Close/CloseNow call sequences. Non-trivial: sendable code with non-empty reason, or an unsendable code/oversize reason, or repeated close calls. distinct = (kind, code class, reason class, role, timing[, call sequence])."
+	rec.Rule = "local Close over every wire code 0..65535 plus out-of-range values x reason-length class x role x timing (idle, after a write, with a Read pending, after the application read only k of the 200 bytes of an unfragmented or fragmented message, with further unread messages queued, with a streamed compressed message open whose first frame is out; reasons of ASCII or two-byte characters); received Close frame over every code x reason class x role x timing (scripted raw peer, virtual time); rapid-drawn mixed cases incl. library<->library and Close/CloseNow call sequences. Non-trivial: sendable code with non-empty reason, or an unsendable code/oversize reason, or repeated close calls. distinct = (kind, code class, reason class, role, timing[, call sequence])."
 	seed := evid.Seed()
 	var rc c06Case
 	if replayCase(t, &rc) {
@@ -456,6 +500,9 @@ func TestC06(t *testing.T) {
 				one(c06Case{Kind: "recv", Client: cl, Code: -1, Timing: tm})
 				one(c06Case{Kind: "recv", Client: cl, Code: -2, Timing: tm})
 			}
+			for n := 118; n <= 130; n++ {
+				one(c06Case{Kind: "local", Client: cl, Code: 1000, ReasonLen: n, Timing: "idle", MB: true})
+			}
 			for _, tm := range c06PartialTimings {
 				for _, part := range []int{0, 1, 50, 99} {
 					one(c06Case{Kind: "local", Client: cl, Code: 1000, ReasonLen: 4, Timing: tm, Part: part})
@@ -477,6 +524,8 @@ func TestC06(t *testing.T) {
 }
 
 func runC06One(t fataler, c c06Case) string {
+	c06MultiByte = c.MB
+	defer func() { c06MultiByte = false }()
 	switch c.Kind {
 	case "local":
 		return runC06Local(t, c)
@@ -522,6 +571,9 @@ func TestC06Mixed(t *testing.T) {
 			c.Calls = sb.String()
 			c.Timing = "idle"
 		}
+		c.MB = rapid.IntRange(0, 2).Draw(rt, "multiByteReason") == 0
+		c06MultiByte = c.MB
+		defer func() { c06MultiByte = false }()
 		var msg string
 		rapid.SyncTest(rt, func(rt *rapid.T) {
 			switch kind {
@@ -534,7 +586,7 @@ func TestC06Mixed(t *testing.T) {
 			}
 		})
 		nt := (ref.Sendable(c.Code) && c.ReasonLen > 0) || !ref.Sendable(c.Code) || c.ReasonLen > 123 || kind == "calls"
-		rec.Case(nt, fmt.Sprintf("%s/%s/%s/%v/%s/%s", c.Kind, codeClass(c.Code), reasonClass(c.ReasonLen), c.Client, c.Timing, c.Calls),
+		rec.Case(nt, fmt.Sprintf("%s/%s/%s/%v/%s/%s/%v", c.Kind, codeClass(c.Code), reasonClass(c.ReasonLen), c.Client, c.Timing, c.Calls, c.MB),
 			c.Kind+":"+codeClass(c.Code), c.Kind+":"+c.Timing)
 		if kind == "liblib" || kind == "calls" {
 			rec.Sample(c)
